@@ -459,6 +459,9 @@ def find_group_cohorts(
     # assumes that `labels` are factorized
     if expected_groups is None:
         nlabels = labels.max() + 1
+    elif len(expected_groups) == 0:
+        # every label is missing: there is no group, hence no cohort
+        return "map-reduce", {}
     else:
         nlabels = expected_groups[-1] + 1
 
